@@ -1,28 +1,11 @@
-"""Per-property configuration of bin/check."""
+"""Per-property configuration of bin/check: one file per property in bin/props_d/
+(each defines ID and PROP)."""
+import glob, importlib.util, os
 import vlib as V
 
-RT = {"rt": V.build_rt}
-
-PROPS = {
-    "C04": {
-        "props_module": "FV.Props.C04",
-        "builders": RT,
-        "suites": [("rt", "c04", {"quick": 600, "thorough": 40000})],
-        "rule": "Header maps of 0..40 pairs (lengths 0,1,255,256,65536; ASCII, multi-byte UTF-8, arbitrary bytes incl. 0x00) followed by payloads of 0..4096 bytes; ops mar/csz/ums/hff/umf/ahf.",
-        "trusted": ["Modelled, not verified: Go map iteration (any order), encoding/binary, thrift.TMemoryBuffer as the stream reader"],
-        "level_text": "Theorems (Lean 4, kernel-checked) over the model of lib/go/protocol.go for ALL header lists with distinct names and ALL payloads: the marshalled bytes are the documented v0 layout, stream and frame readers return exactly the map and leave the payload untouched, any iteration order decodes to the same map, addHeadersToFrame yields size/merged headers/same payload, the layout decodes uniquely. The model is tied to the Go code (and the Python codec) by differential runs on every check.",
-        "level_note": "Trusted: Lean kernel (+ propext/Classical.choice/Quot.sound), the hand-written model, the correspondence harness and its generators; Go maps, encoding/binary and TMemoryBuffer are modelled, not verified. Hypothesis: total header size < 2^31.",
-        "assumptions": ["total header size < 2^31 bytes (int32 size arithmetic)", "Go slices passed to the codec have cap = len (least permissive case)"],
-    },
-    "C05": {
-        "props_module": "FV.Props.C05",
-        "builders": RT,
-        "suites": [("rt", "c05pure", {"quick": 3000, "thorough": 300000}), ("rt", "c05recv", {"quick": 1500, "thorough": 60000})],
-        "suite_args_first": {"c05pure": ["-huge", "3"]},
-        "rule": "Valid frames with one mutation (truncate at any offset, a size field set to a boundary value, version byte, bit flip, duplicate/splice, truncate+pad) and raw random bytes of length 0..64, fed to hff/umf/exf/exe/ums/ahf.",
-        "trusted": ["Modelled, not verified: Go slice-expression semantics as `FV.slice` (cap = len), thrift.TMemoryBuffer reader"],
-        "level_text": "Theorems (Lean 4) that the modelled receivers — header codec with Go slice semantics (a slice expression out of range is an explicit `panic` outcome of the model), registry Execute, ExecuteFrame, NATS server processFrame, NATS subscriber worker — never reach a panic outcome and terminate for EVERY byte string, and that message-oriented receivers are in their initial state after any garbage. The tie to the code is differential (same bytes to real entry points under recover+watchdog and to the model).",
-        "level_note": "Trusted: Lean kernel, model of Go slice/`make` semantics (cap = len), harness. Thrift's own readers after the Frugal header and the brokers are environment (exercised, not modelled). Allocation size on the stream path is not treated as a crash.",
-        "assumptions": ["frames shorter than 2^31 bytes", "stream reads with a declared size above 64 MiB are executed only a few times per run (allocation cost)"],
-    },
-}
+PROPS = {}
+for path in sorted(glob.glob(os.path.join(os.path.dirname(os.path.abspath(__file__)), "props_d", "*.py"))):
+    spec = importlib.util.spec_from_file_location("props_d_" + os.path.basename(path)[:-3], path)
+    mod = importlib.util.module_from_spec(spec)
+    spec.loader.exec_module(mod)
+    PROPS[mod.ID] = mod.PROP
